@@ -196,6 +196,12 @@ class Renderer:
             body = ["%s %s" % (src_expr(t[1], rng), rng.choice(["remove", "delete"]))]
         elif op == "fieldset":
             body = ["%s.fld = %s" % (src_expr(t[1], rng), t[2])]
+        elif op == "fieldtarget":
+            # setter-backed field (EV_SimpleEntity_SetterTarget): the value goes through executeSetter
+            body = ['%s.target = "t%s"' % (src_expr(t[1], rng), t[2])]
+        elif op == "fieldname":
+            # setter-backed field targetname: on a group this renames every member (field path, not the command)
+            body = ["%s.targetname = %s" % (src_expr(t[1], rng), name_lit(int(t[2])))]
         else:
             body = self.act(t)
         return "\n".join(["main:"] + body + ["end"] + labels) + "\n"
@@ -251,9 +257,13 @@ def gen_stmt(rng, nobj, nnames):
         return toks
     if x < 0.88:
         return ["fanname", src(), str(nm())]
-    if x < 0.93:
+    if x < 0.91:
         return ["fandelete", src()]
-    return ["fieldset", src(), str(rng.randint(1, 99))]
+    if x < 0.94:
+        return ["fieldset", src(), str(rng.randint(1, 99))]
+    if x < 0.97:
+        return ["fieldtarget", src(), str(rng.randint(1, 99))]
+    return ["fieldname", src(), str(nm())]
 
 
 def gen_script_case(rng, n, cfg, nnames=4):
@@ -268,6 +278,42 @@ def gen_script_case(rng, n, cfg, nnames=4):
         if t[0] == "spawn":
             nobj = min(MAXOBJ, nobj + 1)
         stmts.append(t)
+    return stmts
+
+
+def gen_setter_case(rng, nnames=3):
+    """directed family: setter-backed field assignments (`.target`, `.targetname`) on `$name` groups of 2..5
+    members (and on captured groups), then every member's field and both groups are observed (the dump after
+    every statement carries the whole table, every live object's target and cached targetname; `size` /
+    `query` read `$h.size` and the elements through the script)"""
+    names = NAMES[:nnames]
+    g = rng.choice(names)
+    h = rng.choice([n for n in names if n != g])
+    stmts = []
+    k = rng.randint(2, 5)
+    pre = [g] * k + [h] * rng.choice([0, 0, 1, 2])
+    rng.shuffle(pre)
+    for n in pre:
+        stmts.append(["spawn", str(n)])
+    if rng.random() < 0.3:
+        stmts.append(["capture", "1", str(g)])
+    for _ in range(rng.randint(1, 4)):
+        x = rng.random()
+        src = "$%d" % g if rng.random() < 0.8 else "v1"
+        if x < 0.45:
+            stmts.append(["fieldtarget", src, str(rng.randint(1, 99))])
+        elif x < 0.55:
+            stmts.append(["fieldset", src, str(rng.randint(1, 99))])
+        elif x < 0.65:
+            stmts.append(["setname", "o%d" % rng.randint(1, len(pre)), str(rng.choice(names))])
+        elif x < 0.72:
+            stmts.append(["delete", "o%d" % rng.randint(1, len(pre))])
+        else:
+            stmts.append(["fieldname", src, str(h if rng.random() < 0.8 else rng.choice(names))])
+            stmts += [["size", "$%d" % h], ["query", "$%d" % h], ["query", "$%d" % g]]
+            if rng.random() < 0.5:
+                g, h = h, g
+    stmts += [["query", "$%d" % g], ["size", "$%d" % h], ["query", "$%d" % h]]
     return stmts
 
 
@@ -481,6 +527,7 @@ def exhaustive_script(depth, nobj=2):
     for n in (2, 3):
         alpha += [["spawn", str(n)], ["capture", "1", str(n)], ["fandelete", "$%d" % n],
                   ["fanname", "$%d" % n, str(5 - n)], ["fieldset", "$%d" % n, "9"],
+                  ["fieldtarget", "$%d" % n, "8"], ["fieldname", "$%d" % n, str(5 - n)],
                   ["fan", "$%d" % n, "hello", ";", "mark", "self", ";", "delete", "o1"],
                   ["fan", "$%d" % n, "hello", ";", "setname", "o2", str(5 - n), ";", "mark", "self"]]
         for k in range(1, nobj + 1):
@@ -550,6 +597,16 @@ def check(ctx):
         if len(batch) == 100:
             bad += runner.run(batch); batch = []
     bad += runner.run(batch)
+    # setter-backed field assignments on groups
+    rng = ctx.rng("setter")
+    nset = 150 if quick else 3000
+    batch = []
+    for i in range(nset):
+        batch.append(("setter:%d" % i, gen_setter_case(rng, rng.choice([2, 3, 4]))))
+        if len(batch) == 100:
+            bad += runner.run(batch); batch = []
+    bad += runner.run(batch)
+    ctx.stats["setter_group_cases"] = nset
     exs, nalpha = exhaustive_script(2 if quick else 3)
     ctx.stats["exhaustive_script_histories"] = len(exs)
     ctx.stats["exhaustive_script_alphabet"] = nalpha
@@ -580,7 +637,7 @@ def check(ctx):
     cov = {
         "evaluations": d.cases, "distinct_nontrivial": len(d.distinct),
         "rule": "non-trivial = at least one accepted operation with an observation, distinct by SHA-1 of the case's lines; host level: op sequences on the real TargetList/SimpleEntity over 8 objects, 4 names + \"\" + the empty resolvable, whole table compared after every op; "
-                "script level: one script per statement in one context (spawn / targetname / remove / $name / .size / [i] / command and thread fan-out with handlers that rename, delete and spawn / field assignment / captured values), "
+                "script level: one script per statement in one context (spawn / targetname / remove / $name / .size / [i] / command and thread fan-out with handlers that rename, delete and spawn / field assignment (plain variable and the setter-backed fields target and targetname, on single objects and groups) / captured values), "
                 "printed lines + whole table + live objects + counters compared after every statement; plus every host history of the stated depth over 3 objects / 3 names and every script history of the stated depth over a %d-statement alphabet" % nalpha,
         "op_lines": d.lines, "op_histogram": d.hist, "model_answer_kinds": d.outkinds,
         "exhaustive": False,
